@@ -684,6 +684,10 @@ class C13(BaseCheck):
         stats['probe.unraisable'] = len(unraisable)
         pre = [d for d in sim.decisions if d[3] == 'pre']
         stats['preemptions'] = len(pre)
+        # reach: at which source lines of the code under test did a pre-emption actually happen
+        for (frm, where, to) in sim.switch_log:
+            if isinstance(where, tuple) and len(where) == 2 and isinstance(where[1], int) and str(where[0]).endswith('.py'):
+                stats['site.%s:%d' % where] = 1
         stats['strategy.' + st['kind'] + ('.%s' % st.get('p', st.get('d', ''))) ] = 1
         if knobs.get('opcode'):
             stats['granularity.opcode'] = 1
@@ -701,6 +705,17 @@ class C13(BaseCheck):
                 'distinct': [rng.digest(sim.switch_log)],
                 'nontrivial': compiling_threads >= 2 and len(pre) >= 1 and not viol, 'steps': sim.steps,
                 'max': {'decision_points_in_one_run': sim.steps}}
+
+    def post_sweep(self, agg):
+        sites = sorted(k[5:] for k in agg.stats if k.startswith('site.'))
+        for k in [k for k in agg.stats if k.startswith('site.')]:
+            del agg.stats[k]
+        gf = [x for x in sites if x.startswith('grid_filter.py:')]
+        compile_window = [x for x in gf if 300 <= int(x.split(':')[1]) <= 340]
+        return {'preemption_sites_distinct': len(sites),
+                'preemption_sites_in_grid_filter': len(gf),
+                'preemption_sites_compile_path': compile_window,
+                'preemption_sites_other_files': sorted(set(x.split(':')[0] for x in sites if not x.startswith('grid_filter.py:')))}
 
     # ---------------------------------------------------------------- shrink
     def prepare_shrink(self, case, viol):
